@@ -145,7 +145,8 @@ def mutation(op, shape):
         # a default config file that overrides options whose declared default is None / not None
         dcf = os.path.join(tmpdir, "defaults.yaml")
         with open(dcf, "w") as f:
-            f.write("d: 5\nod: 8\na: 3\n")
+            f.write("d: 5\nod: 8\na: 3\nsource: from_file\n")
+        parser.add_argument("source")  # an untyped positional: its help string holds no %-template at all
         parser.default_config_files = [dcf]
     parser.parse_object({})  # warm-up
 
